@@ -169,6 +169,12 @@ func (w *World) wiringRunNamedPipe() []*Obligation {
 	// one EventWriter, shared by both processors (C10); one logins channel from the sshd processor to the audit processor (C05)
 	nw := callsTo(fn, "github.com/metal-toolbox/auditevent.NewDefaultAuditEventWriter")
 	obs = append(obs, structOb("wiring/eventwriter:single", len(nw) == 1, fmt.Sprintf("%d EventWriters created in RunNamedPipe", len(nw))))
+	// the events output is opened append-only: concurrent writers and restarts never overwrite earlier events
+	// (necessary condition of C10's "whole events" half; the atomicity of one write(2) with O_APPEND is the OS's)
+	if len(nw) == 1 {
+		ok, note := w.appendOnlySource(fn, nw[0].Common().Args[0])
+		obs = append(obs, structOb("wiring/eventwriter:append-only-file", ok, note))
+	}
 	sshdOK, auditdOK, loginsSshd, loginsAuditd, auditsOK := false, false, false, false, false
 	for _, g := range gos {
 		mc, ok := g.Common().Args[1].(*ssa.MakeClosure)
@@ -226,4 +232,94 @@ func callsToMakeChan(fn *ssa.Function, elemSuffix string) []*ssa.MakeChan {
 		}
 	}
 	return out
+}
+
+// appendOnlySource: v (the io.Writer given to the event writer) is the file returned by a call that opens it with
+// O_WRONLY|O_APPEND — either os.OpenFile with constant flags, or a function whose body contains such a call and no
+// other os.OpenFile call (the auditevent helper), looked up in the SSA of the dependency.
+func (w *World) appendOnlySource(fn *ssa.Function, v ssa.Value) (bool, string) {
+	// peel interface conversion and the load of the local variable
+	for {
+		switch x := v.(type) {
+		case *ssa.MakeInterface:
+			v = x.X
+			continue
+		case *ssa.ChangeInterface:
+			v = x.X
+			continue
+		}
+		break
+	}
+	ld, ok := v.(*ssa.UnOp)
+	if !ok {
+		return false, "the event writer's sink is not a local variable"
+	}
+	al, ok := ld.X.(*ssa.Alloc)
+	if !ok {
+		return false, "the event writer's sink is not a local variable"
+	}
+	var src *ssa.Call
+	n := 0
+	for _, r := range *al.Referrers() {
+		st, ok := r.(*ssa.Store)
+		if !ok || st.Addr != al {
+			continue
+		}
+		n++
+		val := st.Val
+		if ex, ok := val.(*ssa.Extract); ok {
+			val = ex.Tuple
+		}
+		if c, ok := val.(*ssa.Call); ok {
+			src = c
+		}
+	}
+	if n != 1 || src == nil {
+		return false, fmt.Sprintf("variable %s is not assigned exactly once from a call", al.Comment)
+	}
+	const oAppend, oAccMode, oWronly = 0x400, 0x3, 0x1
+	flagsOK := func(c *ssa.Call) (bool, string) {
+		if len(c.Common().Args) < 2 {
+			return false, "os.OpenFile call without flags"
+		}
+		k, ok := c.Common().Args[1].(*ssa.Const)
+		if !ok || k.Value == nil {
+			return false, "os.OpenFile with non-constant flags"
+		}
+		f := k.Int64()
+		if f&oAppend == 0 || f&oAccMode != oWronly {
+			return false, fmt.Sprintf("os.OpenFile flags %#x are not O_WRONLY|O_APPEND", f)
+		}
+		return true, fmt.Sprintf("flags %#x", f)
+	}
+	callee := src.Common().StaticCallee()
+	if callee == nil {
+		return false, "the output file comes from a dynamic call"
+	}
+	if callee.String() == "os.OpenFile" {
+		ok, note := flagsOK(src)
+		return ok, "events output opened in RunNamedPipe by os.OpenFile: " + note
+	}
+	opens := callsTo(callee, "os.OpenFile")
+	if len(opens) == 0 {
+		// one level deeper (the helper delegates to an inner function)
+		for _, b := range callee.Blocks {
+			for _, in := range b.Instrs {
+				if c, ok := in.(*ssa.Call); ok {
+					if inner := c.Common().StaticCallee(); inner != nil && inner.Blocks != nil {
+						opens = append(opens, callsTo(inner, "os.OpenFile")...)
+					}
+				}
+			}
+		}
+	}
+	if len(opens) == 0 {
+		return false, "no os.OpenFile call found in " + callee.String()
+	}
+	for _, o := range opens {
+		if ok, note := flagsOK(o); !ok {
+			return false, callee.String() + ": " + note
+		}
+	}
+	return true, fmt.Sprintf("events output opened by %s, whose %d os.OpenFile call(s) use O_WRONLY|O_APPEND", callee.String(), len(opens))
 }
